@@ -120,8 +120,21 @@ pub fn issue_own(ctx: &mut Ctx, case: &Value, entry_prop: &str) -> Option<Issued
     let reissue = case.get("reissue").and_then(|v| v.as_u64())
         .unwrap_or_else(|| [0u64, 0, 0, 1, 2][(crate::report::hash_of(&case["tree"]) % 5) as usize]) as usize;
     ctx.report.bump(&format!("issued-after-{}-earlier-encodes", reissue));
+    // one bound case in four starts from claims that already carry a top-level `cnf` (null, an empty
+    // object, a string, another key): require_key_binding must still decide the bound key
+    let pre_cnf: Option<Value> = if kb && !paths.iter().any(|p| p == "/cnf" || p.starts_with("/cnf/")) {
+        match case.get("pre_cnf") {
+            Some(v) => Some(v.clone()),
+            None => match crate::report::hash_of(&case["order"]) % 16 {
+                0 => Some(Value::Null), 1 => Some(json!({})), 2 => Some(json!("none")),
+                3 => Some(json!({"kty":"RSA","n":"AQAB","e":"AQAB"})), _ => None,
+            },
+        }
+    } else { None };
+    let mut claims_in = claims.clone();
+    if let (Some(v), Some(o)) = (&pre_cnf, claims_in.as_object_mut()) { o.insert("cnf".into(), v.clone()); ctx.report.bump("claims-with-own-cnf"); }
     let req = IssueReq {
-        claims: &claims, paths: &paths,
+        claims: &claims_in, paths: &paths,
         decoy: case["decoy"].as_i64().map(|n| n as i32),
         cnf: if kb { Some(&jwk) } else { None },
         header: Some(header),
@@ -153,6 +166,17 @@ pub fn issue_own(ctx: &mut Ctx, case: &Value, entry_prop: &str) -> Option<Issued
             return None;
         }
     };
+    // the members the issuer adds on request
+    if kb && payload.get("cnf") != Some(&jwk) {
+        ctx.report.diff("property", "Issuer::encode", "Issuer::encode:cnf-is-not-the-required-key", case,
+            json!({"cnf": payload.get("cnf"), "claims_cnf": pre_cnf, "earlier_encodes": reissue}));
+    }
+    if !kb && payload.get("cnf").is_some() && claims.get("cnf").is_none() {
+        ctx.report.diff("property", "Issuer::encode", "Issuer::encode:cnf-without-key-binding", case, json!({"cnf": payload.get("cnf")}));
+    }
+    if exp && !payload.get("exp").map_or(false, |e| e.is_i64() || e.is_u64()) {
+        ctx.report.diff("property", "Issuer::encode", "Issuer::encode:exp-missing", case, json!({"exp": payload.get("exp")}));
+    }
     let spec = tree_op(ctx, "sha-256", &tree, payload.get("_sd"), &[]);
     Some(IssuedCase { tree, marks, token, jwt, discs, payload, claims, alg, sd_alg: "sha-256".into(), kb, exp, spec, reference: false })
 }
